@@ -83,7 +83,47 @@ func concPrograms() []vrt.Program {
 			Classify: func(kind, info string) string { return "C05/conc/" + kind },
 		}
 	}
-	return []vrt.Program{mk("conc/store-vs-readers", 0), mk("conc/store-resize-vs-readers", 3), mk("conc/store-shrink-vs-readers", 1)}
+	// a reader of packets that stay among the newest throughout, while the
+	// cache (wrapped, so that entries move) is grown and shrunk and one more
+	// packet is stored: each lookup must return the packet, not nothing
+	retained := vrt.Program{
+		Name:       "conc/retained-vs-resize",
+		MaxPreempt: core.Pick(2, 3),
+		Setup: func() ([]func(), []string, func() (string, *core.Violation)) {
+			cache := packetcache.New(4)
+			for s := uint16(1); s <= 6; s++ {
+				cache.Store(s, uint32(s), false, true, content(s, 0))
+			}
+			var got []readRes
+			writer := func() {
+				cache.Resize(8)
+				cache.Store(7, 7, false, true, content(7, 0))
+				cache.Resize(5)
+			}
+			reader := func() {
+				// 3 and 4 sit beyond the ring's tail: growing moves them
+				for _, s := range []uint16{4, 3, 6, 4} {
+					buf := make([]byte, packetcache.BufSize)
+					n := cache.Get(s, buf)
+					got = append(got, readRes{"Get", s, buf[:n]})
+				}
+			}
+			final := func() (string, *core.Violation) {
+				out := ""
+				for _, r := range got {
+					if !bytes.Equal(r.got, content(r.seq, 0)) {
+						return "", &core.Violation{Signature: "C05/conc/retained-not-retrievable",
+							What: fmt.Sprintf("Get(%d) returned %d bytes while the cache was being resized, although packet %d stayed among the newest packets throughout (packets 3..7, capacity never below 4 before and 5 after the seventh packet)", r.seq, len(r.got), r.seq)}
+					}
+					out += "ok;"
+				}
+				return out, nil
+			}
+			return []func(){writer, reader}, []string{"writer+resize", "reader-Get"}, final
+		},
+		Classify: func(kind, info string) string { return "C05/conc/" + kind },
+	}
+	return []vrt.Program{mk("conc/store-vs-readers", 0), mk("conc/store-resize-vs-readers", 3), mk("conc/store-shrink-vs-readers", 1), retained}
 }
 
 func runConcurrent(res *core.Result, shard, shards int) {
